@@ -5,7 +5,10 @@ package mod_trust_clientip
 // larger tables is C19).
 
 import (
+	"encoding/json"
 	"net"
+	"net/url"
+	"os"
 
 	"github.com/baidu/go-lib/web-monitor/metrics"
 	"github.com/bfenetworks/bfe/bfe_basic"
@@ -57,4 +60,83 @@ func VerifC29_trustDecision() {
 		}
 	}
 	vrt.Assert(sess.TrustSource() == in, "C29/trusted-iff-in-table")
+}
+
+// ---------------------------------------------------------------------------------------------------
+// Focused harness (added after the seeded-change review, see notes/C29.md): the table that decides is
+// the one the operator loaded last. loadConfData = TrustIPConfLoad (file + JSON decoding: outside, the
+// engine's "verif-json:" hook hands over the struct built here; the native replay writes a real file)
+// + TrustIPConfCheck + conversion + ipItemsMake + IPTable.Update.
+
+var hookC29 *TrustIPConfFile
+
+func VerifC29_decTrust(dst interface{}) error {
+	*(dst.(*TrustIPConfFile)) = *hookC29
+	return nil
+}
+
+func fileC29(v *TrustIPConfFile) string {
+	hookC29 = v
+	if vrt.Symbolic() {
+		return "verif-json:VerifC29_decTrust"
+	}
+	b, err := json.Marshal(v)
+	if err != nil {
+		panic(err)
+	}
+	f, err := os.CreateTemp("", "verifC29-*.json")
+	if err != nil {
+		panic(err)
+	}
+	f.Write(b)
+	f.Close()
+	return f.Name()
+}
+
+// tablesC29: [begin, end] of the single range 10.0.0.begin .. 10.0.0.end; the last entry does not parse.
+var tablesC29 = []struct {
+	begin, end string
+	lo, hi     int
+}{
+	{"10.0.0.1", "10.0.0.9", 1, 9},
+	{"10.0.0.20", "10.0.0.20", 20, 20},
+	{"10.0.0.5", "10.0.0.30", 5, 30},
+	{"10.0.0.x", "10.0.0.9", -1, -1},
+}
+
+// VerifC29_reload: 1..2 (re)loads, each of one of the tables above under version "v1" or "v2" (so a
+// reload may carry new content under an unchanged version string, or fail), then a connection from
+// 10.0.0.p with symbolic p: trusted iff p lies in the table of the last load that succeeded.
+func VerifC29_reload() {
+	m := &ModuleTrustClientIP{name: ModTrustClientIP, trustTable: ipdict.NewIPTable()}
+	m.state.ConnTotal = new(metrics.Counter)
+	m.state.ConnTrustClientip = new(metrics.Counter)
+	m.state.ConnAddrInternal = new(metrics.Counter)
+	m.state.ConnAddrInternalNotTrust = new(metrics.Counter)
+
+	lo, hi := -1, -1 // nothing loaded: nobody is trusted
+	nt := vrt.Param("T", 4)
+	for i, n := 0, vrt.Range("loads", 1, 2); i < n; i++ {
+		t := tablesC29[vrt.Choose("table", nt)]
+		version := []string{"v1", "v2"}[vrt.Choose("version", 2)]
+		begin, end := t.begin, t.end
+		list := AddrScopeFileList{{Begin: &begin, End: &end}}
+		cfg := SrcScopeMapFile{"idc": &list}
+		path := fileC29(&TrustIPConfFile{Version: &version, Config: &cfg})
+		err := m.loadConfData(url.Values{"path": {path}})
+		if !vrt.Symbolic() {
+			os.Remove(path)
+		}
+		if t.lo < 0 {
+			vrt.Assert(err != nil, "C29/bad-table-refused")
+		} else {
+			vrt.Assert(err == nil, "C29/reload-succeeds")
+			lo, hi = t.lo, t.hi
+		}
+	}
+	p := vrt.Byte("peer")
+	sess := &bfe_basic.Session{RemoteAddr: &net.TCPAddr{IP: net.IPv4(10, 0, 0, p).To4(), Port: 4000}}
+	m.acceptHandler(sess)
+	in := lo >= 0 && lo <= int(p) && int(p) <= hi
+	vrt.Assert(sess.TrustSource() == in, "C29/trusted-iff-in-last-loaded-table")
 }
